@@ -332,7 +332,11 @@ def split_traces(path, parts, outdir, reset_key='"k":"reset"'):
         return []
     starts = [i for i, l in enumerate(lines) if reset_key in l[:200]]
     if not starts:
-        starts = [0]
+        # a stateless monitor (per-record oracles): any line is a boundary
+        first = 1 if lines and '"k":"meta"' in lines[0][:200] else 0
+        starts = list(range(first, len(lines)))
+        if not starts:
+            starts = [0]
     head = lines[:starts[0]]
     total = len(lines) - starts[0]
     per = max(1, total // max(1, parts))
